@@ -9,7 +9,7 @@ LEVEL = 'fault_enumeration'
 EPS = 0.001
 RULE = ('operation in {connect without auth / with a signature / waiting for the public key to be accepted, shell, exec_out, streaming_shell, root, reboot, list, stat, pull, pull with callback, '
         'push of 1 WRTE, push of several WRTEs} x EVERY device->host packet index the operation awaits x stall kind {silence, end-of-stream (empty reads forever), trickle (first 1/23/24/size-1 '
-        'bytes of the awaited packet one per 0.9 x transport timeout, then silence), endless traffic for another stream, endless unexpected packets on this stream} x timeout grid transport '
+        'bytes of the awaited packet one per 0.9 x transport timeout, then silence), endless traffic for another stream, endless unexpected packets on this stream} (plus: endless output on this stream for the operations that take a whole-command limit) x timeout grid transport '
         '{None, 0, 0.01, 0.5} x read {-1, 0, 0.05, 1} x total {None, 0, 0.02, 2} (auth {0.05, 1} for connect), virtual clock with 1 ms per transport call; oracle: the call raises AdbTimeoutError or '
         'the transport timeout class, never returns a result, never blocks forever, the transport-call watchdog is not exhausted, virtual time from the stall to the raise <= 4 x (read + transport) '
         '+ total + eps x calls, and every timeout handed to the transport <= effective read timeout <= total; non-trivial = every case; distinct = distinct (op, packet, stall, timeouts, twin)')
@@ -131,6 +131,39 @@ def run_stall(params, ch):
         s.finish()
 
 
+def run_endless(params, ch):
+    """The device keeps answering (every WRTE of the stream arrives at once, forever) but the command never finishes: the
+    whole-command limit timeout_s is what has to end it."""
+    op, twin, T, R, total = params['op'], params['twin'], params['T'], params['R'], params['total']
+    cfg = dict(CFG)
+    dest = {'shell': b'shell:c', 'exec_out': b'exec:c', 'root': b'root:'}[op]
+    cfg['endless'] = [dest]
+    s = Session(ch, cfg, twin=twin, eps=EPS, max_calls=60000)
+    try:
+        s.op(('connect',))
+        t0 = s.env.clock.now
+        c0 = s.env.calls
+        r = s.op(OPS[op]({'transport_timeout_s': T, 'read_timeout_s': R, 'timeout_s': total}))
+        viol = []
+        et, er = eff(T, R, total)
+        if r[0] == 'ok':
+            viol.append({'msg': '%s(timeout_s=%r) returned %r from a command that never finishes' % (op, total, r[1][:40] if r[1] else r[1])})
+        elif r[0] != 'exc':
+            viol.append({'msg': '%s(timeout_s=%r) never ends although the whole-command limit has passed: %r (T=%r R=%r)' % (op, total, r, T, R)})
+        elif r[1] not in TIMEOUTS:
+            viol.append({'msg': '%s(timeout_s=%r) raised %s' % (op, total, r[1])})
+        else:
+            elapsed = s.env.clock.now - t0
+            calls = s.env.calls - c0
+            bound = max(0.0, total) + 4 * (max(0.0, er) + max(0.0, et)) + EPS * calls + 1e-6
+            if elapsed > bound:
+                viol.append({'msg': '%s(timeout_s=%r) ended after %.3f s of virtual time, bound %.3f' % (op, total, elapsed, bound)})
+        return {'outcome': r[:2], 'viol': viol, 'nontrivial': tuple(sorted((k, str(v)) for k, v in params.items())),
+                'sample': dict(params, result=r[:2], virtual_seconds=round(s.env.clock.now - t0, 4), transport_calls=s.env.calls - c0), 'trans': s.env.calls}
+    finally:
+        s.finish()
+
+
 def stalls():
     out = [{'kind': 'silence'}, {'kind': 'eof'}, {'kind': 'other'}, {'kind': 'unexpected'}]
     out += [{'kind': 'trickle', 'j': j} for j in (1, 23, 24, -1)]
@@ -170,4 +203,6 @@ def parts(tier):
                             for auth in (0.05, 1):
                                 sc.append(dict(stl, op=op, twin=twin, k=k, T=T, R=R, auth=auth))
     out.append(Part('connect', sc, run_stall, what='connect(): every awaited reply x stall kind x timeout grid', bound='%d stalls' % len(sc)))
+    sc = [{'op': op, 'twin': t, 'T': T, 'R': R, 'total': total} for op in ('shell', 'exec_out', 'root') for t in twins for T in Ts for R in Rs for total in totals if total is not None]
+    out.append(Part('endless-output', sc, run_endless, what='a command whose output never ends: the whole-command limit must end it', bound='%d cases' % len(sc), min_outcomes=1))
     return out
